@@ -63,7 +63,7 @@ REQUIRED_CATEGORIES = [
     "N_8", "N_9", "N_36", "N_180", "newton_converged", "newton_not_converged",
     "vonmises_narrow_le_5deg", "vonmises_isotropic", "vonmises_bimodal",
     "grid_origin_shifted", "grid_order_rolled", "memory_layout_C", "memory_layout_fortran", "memory_layout_strided",
-    "object_fortran_values", "shape_(nf,)", "shape_(nt,nf)", "shape_(nt,nx,nf)", "shape_single_element",
+    "object_fortran_values", "every_N_8..180", "history_custom_config_then_default", "shape_(nf,)", "shape_(nt,nf)", "shape_(nt,nx,nf)", "shape_single_element",
     "layout_scalar", "layout_time", "layout_time_lat", "layout_flat",
     "singleton_compared", "roundtrip_checked", "progress_bar_path(points>=10)",
 ]
@@ -373,6 +373,12 @@ def units(tier):
         for N in (8, 36):
             us.append({"name": f"origin:{variant}:N{N}", "kind": "origin", "variant": variant, "N": N,
                        "cost": COST[variant] * NCOST[N] * 3645 * 3})
+        if variant == "mem":
+            us.append({"name": "history:solver_config", "kind": "history", "cost": 60000})
+        if variant in ("mem", "mem2/approximate"):
+            for b in range(4):
+                us.append({"name": f"alln:{variant}:{b}/4", "kind": "alln", "variant": variant, "Ns": ALL_N[b::4],
+                           "cost": 3000})
         for N in (8, 9, 36):
             us.append({"name": f"order:{variant}:N{N}", "kind": "order", "variant": variant, "N": N,
                        "cost": COST[variant] * NCOST[N] * 3645 * 3.5})
@@ -684,8 +690,10 @@ def check_object(c, agg, keybase, s1, s2, N, E, Qm, label):
     if tuple(v.dims) != want_dims or v.shape != lead + (NF, N):
         agg.add(dict(key, check="dims"), f"{variant}/{label}: 2D dims {v.dims} shape {v.shape}, expected {want_dims} {lead + (NF, N)}")
         return None
-    if not np.array_equal(s2.dataset["direction"].values, np.linspace(0, 360, N, endpoint=False)):
-        agg.add(dict(key, check="direction_coordinate"), f"{variant}/{label}: direction coordinate is not linspace(0,360,{N})")
+    dvals = np.asarray(s2.dataset["direction"].values, dtype=float)
+    if dvals.shape != (N,) or not np.all(np.abs(dvals - np.arange(N) * 360.0 / N) <= 1e-9):
+        agg.add(dict(key, check="direction_coordinate"),
+                f"{variant}/{label}: direction coordinate (shape {dvals.shape}) is not k*360/{N}, k=0..{N - 1}")
     for name in ("time", "latitude", "longitude", "depth", "frequency"):
         a = s1.dataset[name]
         if name not in s2.dataset.variables:
@@ -809,8 +817,190 @@ def run_object(unit):
     return r
 
 
+# ---- history family: calls with a custom solver_config must not change later default calls -------
+DOCUMENTED_NUMERICS = {"atol": 0.01, "max_iter": 100, "max_line_search_depth": 8, "rcond": 1e-6,
+                       "use_mem_when_failing_to_converge": True}
+CUSTOM_CONFIGS = [
+    ("empty", {}),
+    ("no_mem_fallback", {"use_mem_when_failing_to_converge": False}),
+    ("atol_0.05", {"atol": 0.05}),
+    ("max_iter_3", {"max_iter": 3}),
+    ("line_search_1", {"max_line_search_depth": 1}),
+    ("rcond_1e-2", {"rcond": 1e-2}),
+]
+CUSTOM_METHODS = ["newton", "scipy", "approximate"]  # mem2() merges solver_config before dispatching
+HIST_MARK = "@@C05-HISTORY@@"
+
+
+def history_child(tier):
+    """Runs in a FRESH interpreter (so that a poisoned module state can neither leak into other
+    units of the worker nor be inherited from them).  Histories: [default calls] ; [one or two calls
+    with a custom solver_config through the public keyword path of
+    estimate_directional_distribution] ; [the same default calls again] -> bit-identical results,
+    module defaults untouched.  Stops at the first offending history (later ones would run on the
+    already changed state)."""
+    import warnings
+
+    from mc import runner
+
+    runner.setup_environment()
+    warnings.simplefilter("ignore")
+    runner.assert_library_from_tree()
+    import ocean_science_utilities.wavespectra.estimators.mem2 as M
+    from ocean_science_utilities.wavespectra.estimators.estimate import estimate_directional_distribution as edd
+
+    rep = {"violations": [], "evaluations": 0, "histories": 0, "custom_calls_raising_not_converged": 0,
+           "harness_error": None, "members": 0}
+    if dict(M.NUMERICS) != DOCUMENTED_NUMERICS:
+        rep["harness_error"] = f"module defaults at start {dict(M.NUMERICS)!r} != documented {DOCUMENTED_NUMERICS!r}"
+        return rep
+    N = 36
+    direction = grid(N)
+    Q = coarse_quads().reshape(-1, 4)[::5]  # 729 members: interior, boundary and unrealisable (non-converging)
+    rep["members"] = len(Q)
+    args = lambda: [Q[None, :, m].copy() for m in range(4)]  # noqa: E731
+
+    def default_calls():
+        out = {}
+        for variant, (method, kw) in VARIANTS.items():
+            if variant == "mem2/scipy":
+                a = [x[:, ::9] for x in args()]  # 81 members: the scipy path does not read the config at all
+            else:
+                a = args()
+            with quiet():
+                out[variant] = robust(lambda: edd(*a, direction.copy(), method, **kw))
+            rep["evaluations"] += a[0].size
+        return out
+
+    base = default_calls()
+    histories = [[(sm, c)] for sm in CUSTOM_METHODS for c in CUSTOM_CONFIGS]
+    if tier != "quick":
+        histories += [[("newton", c1), ("newton", c2)] for c1 in CUSTOM_CONFIGS for c2 in CUSTOM_CONFIGS]
+    for hist in histories:
+        hname = " ; ".join(f"{sm}:{cn}" for sm, (cn, _) in hist)
+        key = {"family": "history", "history": hname, "N": N}
+        for sm, (cname, cfg) in hist:
+            try:
+                with quiet():
+                    robust(lambda: edd(*args(), direction.copy(), "mem2", solution_method=sm, solver_config=dict(cfg)))
+            except ValueError as exc:
+                if "did not converge" in str(exc) and cfg.get("use_mem_when_failing_to_converge") is False:
+                    rep["custom_calls_raising_not_converged"] += 1  # documented behaviour of that setting
+                else:
+                    rep["violations"].append([dict(key, check="raises", exception="ValueError"),
+                                              f"call with solver_config={cfg} ({sm}) raises ValueError: {exc}", {}])
+            except Exception as exc:  # noqa
+                rep["violations"].append([dict(key, check="raises", exception=type(exc).__name__),
+                                          f"call with solver_config={cfg} ({sm}) raises {type(exc).__name__}: {exc}",
+                                          {"traceback": tb_tail(exc)}])
+            rep["evaluations"] += len(Q)
+        rep["histories"] += 1
+        bad = False
+        if dict(M.NUMERICS) != DOCUMENTED_NUMERICS:
+            rep["violations"].append([dict(key, check="module_defaults_changed"),
+                                      f"after [{hname}] the module defaults are {dict(M.NUMERICS)!r}", {}])
+            bad = True
+        try:
+            again = default_calls()
+            for variant in VARIANTS:
+                if not np.array_equal(again[variant], base[variant], equal_nan=True):
+                    d = np.abs(again[variant] - base[variant])
+                    rep["violations"].append([
+                        dict(key, check="default_call_changed_by_history", variant=variant),
+                        f"{variant}: default call after [{hname}] differs from the same call before it "
+                        f"(max |dD| = {float(np.nanmax(d)):.3g}, {int((d > 0).any(-1).sum())} members)", {}])
+                    bad = True
+        except Exception as exc:  # noqa
+            rep["violations"].append([dict(key, check="default_call_raises_after_history", exception=type(exc).__name__),
+                                      f"default call after [{hname}] raises {type(exc).__name__}: {exc}",
+                                      {"traceback": tb_tail(exc)}])
+            bad = True
+        if bad:
+            rep["stopped_after"] = hname
+            break
+    return rep
+
+
+def run_history(unit):
+    import json
+    import os
+    import subprocess
+
+    c = Collector()
+    verif = os.path.dirname(os.path.dirname(os.path.dirname(os.path.abspath(__file__))))
+    p = subprocess.run([sys.executable, "-m", "mc.props.c05", "history", unit["tier"]], cwd=verif,
+                       capture_output=True, text=True, env=dict(os.environ))
+    lines = [ln for ln in p.stdout.splitlines() if ln.startswith(HIST_MARK)]
+    if p.returncode != 0 or not lines:
+        raise RuntimeError(f"history child failed (exit {p.returncode}): {p.stderr[-1500:]}")
+    rep = json.loads(lines[-1][len(HIST_MARK):])
+    if rep["harness_error"]:
+        raise AssertionError(rep["harness_error"])
+    for key, what, detail in rep["violations"]:
+        c.violation(key, what, **detail)
+    c.evaluations += rep["evaluations"]
+    c.cat("history_custom_config_then_default", rep["histories"])
+    c.cat("history_custom_call_raised_not_converged(documented)", rep["custom_calls_raising_not_converged"])
+    c.nontriv(n=rep["histories"])
+    c.case({"history": True, "tier": unit["tier"]})
+    c.sample({"history": "default ; newton:no_mem_fallback ; default", "members": rep["members"], "N": 36,
+              "fresh_interpreter": True})
+    return c.result()
+
+
+ALL_N = list(range(8, 181))
+
+
+def run_alln(unit):
+    """object-level conversion and round trip for EVERY N in 8..180 (the property's range), cheap
+    variants only: grid construction, the number of directions, e(f) / m0 reproduction and the
+    carried coordinates do not depend on the solver."""
+    c = Collector()
+    agg = Agg(c)
+    variant = unit["variant"]
+    method, kw = VARIANTS[variant]
+    Qall = coarse_quads().reshape(-1, 4)
+    Qm = Qall[classify(Qall) != "realisability_boundary"][:3 * NF].reshape(3, NF, 4)  # boundary: covered elsewhere
+    E = energy(3)
+    depths = np.array([np.inf, 10.0, 250.0])
+    nontriv = 0
+    for N in unit["Ns"]:
+        keybase = {"variant": variant, "N": N, "grid_origin": "0"}
+        s1 = make_1d(FREQ, E, Qm[..., 0], Qm[..., 1], Qm[..., 2], Qm[..., 3], depth=depths)
+        try:
+            with quiet():
+                s2 = robust(lambda: s1.as_frequency_direction_spectrum(
+                    N, method=method, solution_method=kw.get("solution_method", "scipy")))
+        except Exception as exc:  # noqa
+            agg.add(dict(keybase, check="raises", layout="time", exception=type(exc).__name__),
+                    f"{variant} N={N}: as_frequency_direction_spectrum raises {type(exc).__name__}: {exc}",
+                    traceback=tb_tail(exc))
+            continue
+        vals = check_object(c, agg, keybase, s1, s2, N, E, Qm, "time")
+        if vals is not None:
+            e = np.where(E > 0, E, 1.0)[..., None]
+            D = (vals / e).reshape(-1, N)[(E > 0).ravel()]
+            Qs = Qm.reshape(-1, 4)[(E > 0).ravel()]
+            judge(c, agg, variant, Qs, D, np.ones(len(Qs), dtype=bool), N, keybase)
+            nontriv += len(Qs)
+        c.cat("every_N_8..180", 1)
+        c.case({"v": variant, "N": N, "alln": True})
+    c.sample({"variant": variant, "N_values": [unit["Ns"][0], "...", unit["Ns"][-1]], "members": "3 spectra x 81 frequencies"})
+    c.nontriv(n=nontriv)
+    agg.flush()
+    return c.result()
+
+
 def run_unit(unit):
     return {
-        "lattice": run_lattice, "vonmises": run_vonmises, "origin": run_origin, "order": run_order, "shapes": run_shapes,
+        "lattice": run_lattice, "vonmises": run_vonmises, "origin": run_origin, "order": run_order, "shapes": run_shapes, "alln": run_alln, "history": run_history,
         "object": run_object,
     }[unit["kind"]](unit)
+
+
+if __name__ == "__main__":
+    if len(sys.argv) >= 3 and sys.argv[1] == "history":
+        import json as _json
+
+        _rep = history_child(sys.argv[2])
+        sys.stdout.write("\n" + HIST_MARK + _json.dumps(_rep) + "\n")
